@@ -164,7 +164,11 @@ C15ok(s, o) ==
         IN /\ (skipping /\ ~o.aborted =>
                  /\ \A x \in 1..Len(o.res[i]) : o.res[i][x] \in {"skipped"}
                  /\ Len(o.res[i]) = Len(A))
-           /\ (~skipping /\ ~timedout => \A x \in 1..Len(o.res[i]) : o.res[i][x] # "skipped")
+           \* "... no test case is reported as skipped, except those FOLLOWING a timed-out one" (the single-script executor
+           \* cannot tell which command ran into the limit: there a timeout anywhere in the document is the exception)
+           /\ (~skipping => \A x \in 1..Len(o.res[i]) : o.res[i][x] = "skipped" =>
+                   IF Script(s, i) THEN timedout
+                   ELSE \E y \in 1..(x - 1) : y <= Len(A) /\ ExceedsAt(s, i, y) /\ reached(y))
            \* a skipped document does not make the run fail
            /\ ((\A j \in 1..Len(s.docs) : (\E x \in 1..Len(Assembled(s, j)) : SkipsAt(s, j, x) /\
                         \A y \in 1..(x - 1) : ~SkipsAt(s, j, y) /\ ~DiesAt(s, j, y) /\ ~ExceedsAt(s, j, y)))
